@@ -30,7 +30,8 @@ def run(ctx):
             chk = rng.choice([0, 1, 4, 10]); lines.append('enc 4 %d %d %d %s %s' % (chk << 8, slc(), rng.randrange(99999), fs, d.hex() or '-')); meta.append((d, 'stream ' + fs, 'xz'))
         th = rng.randrange(4); bs = rng.choice([1, 2, 4])
         lines.append('enc 1 %d %d %d - %s' % (1 | (4 << 8) | (th << 12) | (bs << 20), slc(), rng.randrange(99999), d.hex() or '-')); meta.append((d, 'mt threads %d block %d' % (th + 1, bs * 4096), 'xz'))
-        lines.append('enc 2 %d 0 0 - %s' % (rng.choice([0, 2, 6]), d.hex() or '-')); meta.append((d, 'alone', 'alone'))
+        lines.append('enc 2 %d %d %d - %s' % (rng.choice([0, 2, 6]), slc(), rng.randrange(99999), d.hex() or '-')); meta.append((d, 'alone', 'alone'))
+        if len(d) <= 20000: lines.append('enc 2 %d 2 0 - %s' % (rng.choice([0, 1]), d.hex() or '-')); meta.append((d, 'alone, one output byte per call', 'alone'))
     # declared dictionary size: sizes that are not of the form 2^n / 3*2^(n-1) must be rounded UP in the LZMA2 properties byte;
     # data that repeats at a distance between the next lower encodable size and the requested size has matches there
     for dsz, per in ((20480, 18000), (4097, 4097), (40000, 36000), (5000, 4600), (98304 + 7, 98304 + 3)):
